@@ -371,8 +371,13 @@ def impl_mem_preempt(case):
         return {"runs": [dry], "n_runs": 1}
     steps = dry["per_thread_steps"]
     runs = [run_mem(threads, []), dry]          # round-robin, sequential
+    hung = 0
     for segs in preempt_schedules(n, steps):
         runs.append(run_mem(threads, _flat(segs)))
+        if "hang" in runs[-1]:
+            hung += 1
+            if hung >= 4:       # a tree on which these calls dead-lock: four hung schedules are reported, the rest skipped
+                break
     for r in runs:
         r.pop("trace", None)
     return {"runs": runs, "n_runs": len(runs)}
@@ -692,8 +697,13 @@ def impl_file_preempt(case):
     if "hang" in dry:
         return {"runs": [dry], "n_runs": 1}
     runs = [run_file(threads, []), dry]
+    hung = 0
     for segs in preempt_schedules(n, dry["per_thread_steps"]):
         runs.append(run_file(threads, _flat(segs)))
+        if "hang" in runs[-1]:
+            hung += 1
+            if hung >= 4:
+                break
     return {"runs": runs, "n_runs": len(runs)}
 
 
